@@ -142,6 +142,10 @@ def ensure_tools():
     return d
 
 
+GXKEYS = ("id", "files", "patterns", "output", "flags", "version", "build_info", "dump", "keep_out", "no_output_flag",
+          "no_input_flag", "extra_args")
+
+
 def gx_run(d, cases, timeout=600, jobs=None):
     """Run gxtool on a list of case dicts (parallel shards); returns list of observation dicts in order."""
     if not cases:
@@ -151,7 +155,7 @@ def gx_run(d, cases, timeout=600, jobs=None):
     procs = []
     tmpbase = os.path.join("/dev/shm", "gvtmp_%d" % os.getpid())
     for k, sh in enumerate(shards):
-        data = "\n".join(json.dumps(c) for c in sh) + "\n"
+        data = "\n".join(json.dumps({k: c[k] for k in GXKEYS if k in c}) for c in sh) + "\n"
         p = subprocess.Popen([os.path.join(d, "gxtool"), "run", tmpbase + "_%d" % k], stdin=subprocess.PIPE,
                              stdout=subprocess.PIPE, stderr=subprocess.PIPE, text=True, env=GOENV)
         procs.append((p, data))
